@@ -13,6 +13,7 @@ struct BOp { uint16_t kind = 0; uint32_t a = 0, b = 0, c = 0; };
 struct Plan {
     uint64_t seed = 0, pool_seed = 1, sched_seed = 1;
     uint32_t mean_gap = 100, max_preemptions = 32;      // seeded schedule; mean_gap 0 = serial orders only
+    uint32_t locale = 0;                                // 1: the process runs under a non-"C" LC_ALL (C.UTF-8: same numeric conventions, different name)
     uint32_t victim = 0, victim_op = 0, runner = 0, offset = 0;   // window-targeted strategy when victim != 0
     std::vector<std::vector<BOp>> programs;             // one per caller thread
     std::vector<Switch> switches;                       // non-empty: explicit schedule (replay / minimised)
